@@ -1058,8 +1058,15 @@ mut('C15', 'destruction-before-refusal', COMMANDS,
     "    wprs = job.project_repo.get_pull_requests(\n        src_branch=[b.name for b in wbranches]\n    )\n    for branch in wbranches:\n        branch.remove(do_push=False)\n    if lossy_reset and not force:\n        raise lossy_reset\n\n")
 mut('C15', 'reset-forces', COMMANDS,
     "    _reset(job, force=False)", "    _reset(job, force=True)")
-mut('C15', 'reset-default-force', COMMANDS,
-    "def _reset(job, force=False):", "def _reset(job, force=True):")
+# (both commands pass force explicitly: the default is never used, so a
+# different default changes nothing -- an equivalent, not a mutant; the
+# earlier rule "force defaults to False" asked for more than the property)
+eq(['C15'], 'reset-default-force-unused', COMMANDS,
+   "def _reset(job, force=False):", "def _reset(job, force=True):")
+mut2('C15', 'reset-default-force-used', [
+    (COMMANDS, "def _reset(job, force=False):",
+     "def _reset(job, force=True):"),
+    (COMMANDS, "    _reset(job, force=False)", "    _reset(job)")])
 mut('C15', 'declines-parent-too', COMMANDS,
     "        src_branch=[b.name for b in wbranches]\n    )\n    for branch in wbranches:",
     "        src_branch=[b.name for b in wbranches] + [job.pull_request.src_branch]\n    )\n    for branch in wbranches:")
